@@ -1,6 +1,8 @@
 package trig
 
 import (
+	"fmt"
+
 	"github.com/dpb587/cursorio-go/cursorio"
 	"github.com/dpb587/cursorio-go/x/cursorioutil"
 	"github.com/dpb587/rdfkit-go/encoding"
@@ -181,6 +183,11 @@ func reader_scan_Object(r *Decoder, ectx evaluationContext, r0 cursorio.DecodedR
 					}
 
 					literal.Datatype = rdf.IRI(expanded)
+				}
+
+				if literal.Datatype == rdfiri.LangString_Datatype || literal.Datatype == rdfiri.Base+"dirLangString" {
+					// a (directional) language-tagged string cannot be written with an explicit datatype: it would have no tag
+					return readerStack{}, grammar.R_object.Err(grammar.R_literal.Err(grammar.R_RDFLiteral.Err(fmt.Errorf("datatype requires a language tag: %s", literal.Datatype))))
 				}
 			default:
 				r.buf.BacktrackRunes(r0)
